@@ -8,13 +8,15 @@ import (
 	"fmt"
 	"sort"
 	"strings"
+	"sync/atomic"
 	"testing"
 
-	"github.com/ava-labs/avalanchego/database/memdb"
+	"github.com/ava-labs/avalanchego/database"
 	"github.com/ava-labs/avalanchego/ids"
 	"github.com/ava-labs/avalanchego/utils/set"
 
 	"github.com/ava-labs/hypersdk/codec"
+	"github.com/ava-labs/hypersdk/internal/vshim/crashx"
 	"github.com/ava-labs/hypersdk/internal/vshim/evid"
 	"github.com/ava-labs/hypersdk/internal/vshim/seqx"
 	"github.com/ava-labs/hypersdk/x/dsmr/dsmrtest"
@@ -51,6 +53,8 @@ func c36Observe(s *ChunkStorage[dsmrtest.Tx], names map[ids.ID]string, nodes map
 	sort.Strings(o.accepted)
 	return o
 }
+
+var c36CrashPoints atomic.Int64
 
 func TestVerifC36(t *testing.T) {
 	r := evid.Start("C36", "model_checking")
@@ -107,9 +111,12 @@ func TestVerifC36(t *testing.T) {
 				res = viol("panic", fmt.Sprintf("panic after %v: %v", hist(h), p))
 			}
 		}()
-		db := memdb.New()
+		db := crashx.New()
 		tv := testVerifier[dsmrtest.Tx]{correctIDs: set.Of(allIDs...), correctCerts: set.Of(certs...)}
-		open := func() (*ChunkStorage[dsmrtest.Tx], error) { return NewChunkStorage[dsmrtest.Tx](tv, db, rf) }
+		openOn := func(d database.Database) (*ChunkStorage[dsmrtest.Tx], error) {
+			return NewChunkStorage[dsmrtest.Tx](tv, d, rf)
+		}
+		open := func() (*ChunkStorage[dsmrtest.Tx], error) { return openOn(db) }
 		s, err := open()
 		if err != nil {
 			return viol("open", err.Error())
@@ -117,6 +124,17 @@ func TestVerifC36(t *testing.T) {
 		outcome := ""
 		for step, oi := range h {
 			o := ops[oi]
+			isLast := step == len(h)-1
+			var before c36Obs
+			if isLast {
+				// what a restart would see BEFORE the operation (crash-atomicity reference)
+				b, err := openOn(crashx.Clone(db))
+				if err != nil {
+					return viol("reopen-failed", err.Error())
+				}
+				before = c36Observe(b, names, nodes)
+				db.Start()
+			}
 			switch o.kind {
 			case "local":
 				if err := s.AddLocalChunkWithCert(chunks[o.arg], certs[o.arg]); err != nil {
@@ -161,6 +179,21 @@ func TestVerifC36(t *testing.T) {
 			}
 			// oracle: a storage reopened on the same database now must look exactly like the live one
 			live := c36Observe(s, names, nodes)
+			if isLast {
+				// crash points: every proper prefix of the operation's durable writes must recover to
+				// the state before or the state after the operation
+				for k, sn := range db.Stop() {
+					rs, err := openOn(sn)
+					if err != nil {
+						return viol("crash:reopen-failed", fmt.Sprintf("after %v, crash after durable write %d: %v", hist(h), k+1, err))
+					}
+					got := c36Observe(rs, names, nodes)
+					if got.String() != before.String() && got.String() != live.String() {
+						return viol("crash:torn-operation", fmt.Sprintf("after %v, crash after durable write %d of the last operation: recovered {%s}, which is neither the state before {%s} nor after {%s}", hist(h), k+1, got, before, live))
+					}
+					c36CrashPoints.Add(1)
+				}
+			}
 			re, err := open()
 			if err != nil {
 				return viol("reopen-failed", fmt.Sprintf("step %d: %v", step, err))
@@ -220,7 +253,8 @@ func TestVerifC36(t *testing.T) {
 	r.Cov["distinct_outcomes"] = len(st.Outcomes)
 	r.Cov["frontier_unexpanded_at_bound"] = st.Frontier
 	r.Cov["bounds"] = map[string]any{"depth": depth, "ops": len(ops), "chunks": len(chunks)}
-	r.Cov["explanation"] = "every transition executes the real ChunkStorage on memdb; after every step a second storage is opened on the same database (= restart / crash at that point: every durable write is a single Put or one atomic batch) and compared with the live one on pending chunks, accepted chunks, minimum expiry, per-producer weight and served bytes"
+	r.Cov["crash_points_inside_operations"] = c36CrashPoints.Load()
+	r.Cov["explanation"] = "every transition executes the real ChunkStorage on memdb; after every step a second storage is opened on the same database (= restart at every operation boundary); a counting database wrapper also reopens the storage on every proper prefix of the durable writes inside the last operation (crash points) and requires the state before or after the operation and compared with the live one on pending chunks, accepted chunks, minimum expiry, per-producer weight and served bytes"
 	r.Assumptions = []string{"3 chunks (expiries 1-3, 2 producers), pass-through verifier from the package's own tests", "certificates are not compared (they are not persisted by design)"}
 	r.Finish()
 }
